@@ -12,7 +12,7 @@ ROWS = {
 
  "C16": ("exploration",
   "exhaustive enumeration of 8/16-bit value types + property-based testing (rapid) of round trips and decoder totality + native fuzzing (thorough)",
-  "All values of the 8/16-bit types (incl. all 2^16 ExposureBias encodings) go through MessagePack Marshal/Unmarshal and Encode/Decode (identity, no leftover, Msgsize bound) and text/JSON where offered (exact for documented members, Marshal∘Unmarshal∘Marshal idempotent for every value, receivers pre-set to another value); floats, Dimensions, hashes, FocusDistance and UUIDs (all text forms x case) are generated; every decoder with an error result is run on arbitrary and near-valid input under recover.",
+  "All values of the 8/16-bit types (incl. all 2^16 ExposureBias encodings) go through MessagePack Marshal/Unmarshal and Encode/Decode (identity, no leftover, Msgsize bound) and text/JSON where offered (exact for documented members, Marshal∘Unmarshal∘Marshal idempotent for every value, receivers pre-set to another value); floats, Dimensions, hashes, FocusDistance and UUIDs (all text forms x case) are generated; every decoder with an error result is run on arbitrary, near-valid and integer-width-boundary (65536, 2^32, 2^64 ...) input under recover.",
   "Trusted: github.com/tinylib/msgp reader/writer, encoding/json. Members are the documented ones listed in the evidence assumptions. One recorded finding (ExposureMode text of undocumented values)."),
 
  "C18": ("exploration",
@@ -32,42 +32,42 @@ ROWS = {
 
  "C08": ("exploration",
   "property-based testing (rapid): differential in-memory reader vs generated chunk schedules behind an instrumented io.ReadSeeker",
-  "Samples and encoder output in every container (as is, truncated, hostile edits) are decoded through every entry point once from memory and once through a reader that delivers generated chunk sizes (one byte, 1..7, 1..4096, buffer-boundary sizes, data together with EOF); digest and error text must be equal; every sample x entry is also run deterministically under the extreme schedules.",
+  "Samples and encoder output in every container (as is, truncated, hostile edits) are decoded through every entry point once from memory and once through a reader that delivers generated chunk sizes (one byte, 1..7, 1..4096, buffer-boundary sizes, data together with EOF); digest and error text must be equal; every sample x entry is also run deterministically under the extreme schedules, and one generated record in each container under every uniform chunk size 1..1100 (thorough 4200).",
   "Trusted: the instrumented reader in internal/worker (legal per io.Reader). Inputs <= 256 KiB."),
 
  "C15": ("exploration",
   "property-based testing (rapid): differential over log levels in an isolated worker process with fd 1/2 captured",
-  "Each generated input (samples, encoder output, truncations, hostile edits, CR3 trees with CTBO counts/indices beyond the logged arrays) is decoded under the default configuration and under SetLogger(in-memory writer, L) for eight levels; digest and error must be equal, no level may panic or kill the process, and the bytes that reached the worker's fd 1 / fd 2 during the default-configuration call must be 0.",
+  "Each generated input (samples, encoder output, truncations, hostile edits, CR3 trees with CTBO counts/indices beyond the logged arrays, metadata boxes wrapped in a box that lies about its size, CR3 files with an honest preview; in-memory readers and readers that fail with a non-EOF error at a drawn offset) is decoded under the default configuration and under SetLogger(in-memory writer, L) for eight levels; digest and error must be equal, no level may panic or kill the process, and the bytes that reached the worker's fd 1 / fd 2 during the default-configuration call must be 0.",
   "Trusted: the worker protocol (fd 3/4) and file-size measurement of fd 1/2; the worker is a bare main that prints nothing itself."),
 
  "C10": ("exploration",
   "property-based testing (rapid) against the byte-offset model computed by a JPEG marker-stream writer",
-  "Generated marker streams (up to 12 segments of all kinds before the DQT, up to two Exif and two XMP segments, payloads with 0xFF bytes and nested SOI/EOI, optional fill bytes) are scanned with generated callback behaviours (Exif: declared length in pieces / the library's reader / nil; XMP: nothing / prefix / all / all in odd pieces / nil); callback count and order, header fields incl. absolute TIFF offset, bytes readable inside each callback, nil error and the caller's reader position after the DQT are compared with the writer's model.",
+  "Generated marker streams (up to 12 segments of all kinds before the DQT, up to two Exif and two XMP segments, payloads with 0xFF bytes and nested SOI/EOI, optional fill bytes) are scanned with generated callback behaviours (Exif: declared length in pieces / the library's reader / nil; XMP: nothing / prefix / all / all in odd pieces / nil); callback count and order, header fields incl. absolute TIFF offset, bytes readable inside each callback, nil error and the caller's reader position after the DQT are compared with the writer's model; a fixed stream is also swept byte by byte (COM pad) across one to three 4 KiB buffers under four callback behaviours.",
   "Trusted: the marker-stream writer in internal/gen and its offset model. Precondition as in the property: the Exif callback consumes its declared length; >= 64 bytes follow the DQT."),
 
  "C11": ("exploration",
   "property-based testing (rapid) against the byte-offset model computed by an ISOBMFF box-tree writer (position-coded payloads)",
-  "Generated box trees (CR3 and HEIF style, depth up to 5, 32/64-bit sizes, full boxes, tiny last children) are read step by step through a caller-supplied bufio.Reader with recording callbacks; position after every top-level box, callback count/order, the exact file byte range each callback's reader yields, header fields and PreviewCR3 are compared with the writer's model; in the malformed variant one inner box declares a wrong size and whatever a callback reads must stay inside every enclosing box.",
-  "Trusted: the tree writer and its offset model in props/c11. The last top-level box is an mdat >= 64 bytes. Reads past a parent are observable through callbacks and the final position only (the bufio.Reader reads ahead by design)."),
+  "Generated box trees (CR3 and HEIF style, depth up to 5, 32/64-bit sizes, full boxes, tiny last children, HEIF item trees whose iloc points at an Exif item 0..9040 bytes into the mdat payload, files ending in 8..15-byte boxes) are read step by step through a caller-supplied bufio.Reader with recording callbacks; position after every top-level box, callback count/order, the exact file byte range each callback's reader yields, header fields and PreviewCR3 are compared with the writer's model; in the malformed variant one inner box declares a wrong size and whatever a callback reads must stay inside every enclosing box.",
+  "Trusted: the tree writer and its offset model in props/c11. For the HEIF item callback only confinement to the item is checked (the property names the CR3 callbacks). Reads past a parent are observable through callbacks and the final position only (the bufio.Reader reads ahead by design)."),
 
  "C14": ("exploration",
   "property-based testing (rapid) with structure-addressed size-field edits; runtime.MemStats.TotalAlloc measured in an isolated, address-space-limited worker",
-  "Samples and encoder output in every container get 1-3 count/size/length fields overwritten with 2^24..2^32-1 or len+-1 (either byte order), plus CR3 files whose PRVW box states an arbitrary preview size; each call runs in a worker process (GOMAXPROCS=1, ulimit -v 8 GiB, one warming call before) and the TotalAlloc delta must stay <= 4 MiB + 16 x len(b); OOM death and makeslice panics are violations.",
+  "Samples and encoder output in every container get 1-3 count/size/length fields overwritten with 2^24..2^32-1 or len+-1 (either byte order), plus CR3 files whose PRVW box states an arbitrary preview size, files made of 2..20000 copies of one tiny box, and Exif blocks inside chains of boxes that all overstate their size with huge unit counts; each call runs in a worker process (GOMAXPROCS=1, ulimit -v 8 GiB, one warming call before) and the TotalAlloc delta must stay <= 4 MiB + 16 x len(b); OOM death and makeslice panics are violations.",
   "Trusted: runtime.MemStats.TotalAlloc as the allocation measure; the worker protocol. Inputs <= 256 KiB."),
 
  "C13": ("exploration",
   "property-based testing (rapid): round trip through an independent XMP serialiser with typed text-to-value rules; metamorphic attribute form vs element form",
-  "A logical record (1-14 of 38 supported simple properties with typed values whose lengths land on the reader's look-ahead steps, plus five dc arrays and ISOSpeedRatings) is serialised with generated layout choices (form per property, quotes, order, 1-3 Description blocks, white space incl. TAB/CR/long runs, unknown properties, junk, xpacket wrapper, entities) and parsed: the result must equal the record field by field, the all-attribute and all-element forms must parse identically, and a token longer than the 1538-byte window must give an error.",
+  "A logical record (1-14 of 38 supported simple properties with typed values whose lengths land on the reader's look-ahead steps, plus five dc arrays and ISOSpeedRatings) is serialised with generated layout choices (form per property, quotes, order, 1-3 Description blocks, white space incl. TAB/CR/long runs, unknown properties, junk, xpacket wrapper, entities) and parsed: the result must equal the record field by field, the all-attribute and all-element forms must parse identically, and a token longer than the 1538-byte window must give an error; fixed-seed records are also parsed behind 0..1600 (thorough 3300) bytes so that every token meets every phase of the 1538-byte window.",
   "Trusted: the serialiser in internal/xmpgen and the text-to-value rules in props/c13 (DESIGN Appendix B). Value alphabet excludes raw markup characters; GPS DMS text, dates without seconds and rdf:parseType structures are not generated."),
 
  "C04": ("exploration",
   "stateful property-based testing (rapid): generated call histories with pool poisoning through verification hooks; pristine-state differential and retention invariant",
-  "Histories of 4-30 steps (decodes over every entry point and a pool of well-formed / truncated / hostile / mis-sized / zone-respelled inputs, perceptual hashes of right- and wrong-size images, poisoning of the Exif buffer pool and pixel pools with hostile contents, GCs) run in one process; every call must give the digest it gives on pristine state, and every returned value is re-digested after each later step and must not change.",
+  "Histories of 4-30 steps (decodes over every entry point and a pool of well-formed / truncated / hostile / mis-sized / zone-respelled inputs, perceptual, average and blur hashes of right- and wrong-size images, poisoning of the Exif buffer pool and pixel pools with hostile contents, GCs) run in one process; every call must give the digest it gives on pristine state, and every returned value is re-digested after each later step and must not change.",
   "Trusted: hooks exif2.VerifResetPools/VerifPoisonPool/VerifNewBuffers and imagehash.VerifResetPixelPools/VerifPoisonPixelPools (build tag verif); internal/digest. bufio reader pools (imagemeta, jpeg, isobmff) are exercised through ordinary history only."),
 
  "C05": ("exploration",
   "property-based testing (rapid) of generated concurrent plans under the Go race detector; sequential-run differential; deadlock watchdog",
-  "Generated plans (2-64 goroutines x 5-30 mixed calls over samples, encoder output with many zone offsets, XMP packets and images; GOMAXPROCS 1-32; cold caches and pools before the concurrent phase) run in a -race binary: a reported data race is a violation (the driver attaches the plan in flight and the report), every call's digest must equal its digest when run alone, and the plan must finish.",
+  "Generated plans (2-64 goroutines x 5-30 mixed calls - decoders, sniffing, perceptual / average / blur hashes - over samples, encoder output with many zone offsets, XMP packets and images; GOMAXPROCS 1-32; cold caches and pools before the concurrent phase; no harness synchronisation between the start barrier and the end of a plan; a cold-start plan first in every process and a quarter of the plans with the reference pass afterwards, so that first-use initialisation happens under overlap) run in a -race binary: a reported data race is a violation (the driver attaches the plan in flight and the report), every call's digest must equal its digest when run alone, and the plan must finish.",
   "Trusted: the Go race detector and scheduler. The harness does not own the interleaving: data races are detected independently of the schedule, atomicity violations without a data race only if the scheduler produces them (stated limit of the technique, DESIGN section 4 C05)."),
 }
 NOT_APPLICABLE = {}
